@@ -18,6 +18,9 @@ CONFIGS = [
     dict(name="yices/panic1+11", over=dict(solver="yices", panic_error_codes={1, 0x11}), panic=(1, 0x11)),
     # the dump directory already holds the query files of an earlier run of a different contract with the same test names
     dict(name="yices/reused-dump-dir", over=dict(solver="yices"), decoy=True),
+    dict(name="yices/cache-solver", over=dict(solver="yices", cache_solver=True)),
+    # the same candidate lengths, given in a non-increasing order
+    dict(name="yices/unsorted-lengths", over=dict(solver="yices"), lens=dict(bytes=[33, 0, 1], array=[2, 0, 1])),
 ]
 _FLAG_WORDS = ("loop unrolling bound", "incomplete execution", "internal-error", "Encountered")
 _TOK = re.compile(r"\(|\)|\|[^|]*\||[^\s()]+")
@@ -173,7 +176,8 @@ def run_contract_case(case):
              "valid_cex": 0, "invalid_cex": 0, "arith_tests": 0, "dyn_tests": 0}
     try:
         over = dict(cfg["over"], dump_smt_queries=True, dump_smt_directory=dump, solver_timeout_assertion=60000)
-        over.update(default_bytes_lengths=list(e2egen.BYTES_LENS), default_array_lengths=list(e2egen.ARRAY_LENS))
+        lens = cfg.get("lens") or dict(bytes=list(e2egen.BYTES_LENS), array=list(e2egen.ARRAY_LENS))
+        over.update(default_bytes_lengths=list(lens["bytes"]), default_array_lengths=list(lens["array"]))
         if cfg.get("decoy"):
             dspec, _ = e2egen.TG(f"decoy-{seed}-{k}").contract(spec.name, nfn=8)
             e2e.run(dspec, **over)
@@ -280,7 +284,7 @@ def fmt(d):
 
 
 def run_suite(run, want, ncontracts, nproc=6):
-    cases = [(run.seed, "hand", 0, run.tier, tuple(want)), (run.seed, "hand", 1, run.tier, tuple(want))]
+    cases = [(run.seed, "hand", ci, run.tier, tuple(want)) for ci in (0, 1, 6, 7)]
     for k in range(ncontracts):
         for ci in range(len(CONFIGS)):
             if ci >= 2 and (k + ci) % 3 != 0 and run.tier == "quick":
